@@ -16,7 +16,9 @@ from . import analysis
 
 rule("C10.b", "on every path from the entry of a set-up / report method to a read of self.timegrid.restricted / "
               ".discount_factors the cache has been (re-)established for this asset, with no intervening call that "
-              "re-establishes it for another asset", floor=12, props=["C10", "C16"])
+              "re-establishes it for another asset", floor=12)
+rule("C16.h", "a wrapper (scaled / structured / linked asset) reads the shared grid cache only after re-establishing it for itself, "
+              "i.e. after the wrapped set-up has overwritten it", floor=2)
 rule("C10.c", "discount factors are created before the sub-grid that copies them, and every sub-grid branch copies them", floor=3)
 
 ENTRY_METHODS = ("setup_optim_problem", "dcf", "fill_level")
@@ -139,7 +141,10 @@ class CacheAnalysis:
         return sites
 
 
-@analysis("gridcache", ["C10.b", "C10.c"])
+WRAPPERS = ("ScaledAsset", "StructuredAsset", "LinkedAsset")
+
+
+@analysis("gridcache", ["C10.b", "C10.c", "C16.h"])
 def run(ctx):
     p = ctx.p
     an = CacheAnalysis(ctx)
@@ -155,12 +160,18 @@ def run(ctx):
             if not sites:
                 ctx.ob("C10.b", fn, "grid cache read before (re-)establishment", True,
                        "every read of the cache is dominated by an establishment for this asset", trivial=not reads_any)
+                if ci.name in WRAPPERS and mname == "setup_optim_problem":
+                    ctx.ob("C16.h", fn, "grid cache read before (re-)establishment", True, trivial=not reads_any)
                 continue
             detail = "; ".join("%s%s" % (p.where(n), (" (in helper %s)" % via.qualname) if via is not None else "") for n, via in sites[:6])
             ctx.ob("C10.b", fn, "grid cache read before (re-)establishment", False,
                    "self.timegrid.restricted / .discount_factors belong to whichever asset set the shared grid last; here they "
                    "are read on a path on which this asset has not (re-)established them (documented timegrid=None path, or "
                    "after another asset's set-up): " + detail, node=sites[0][0])
+            if ci.name in WRAPPERS and mname == "setup_optim_problem":
+                ctx.ob("C16.h", fn, "grid cache read before (re-)establishment", False,
+                       "the wrapper reads its window / step lengths from the shared grid after the wrapped asset's set-up overwrote them "
+                       "(fixed costs over the base asset's duration, linking rows over the last inner asset's window): " + detail, node=sites[0][0])
     ctx.require(n_entries >= 12, "fewer than 12 set-up / report entry methods found on asset classes")
 
     # non-self reads: a function that reads <grid>.restricted of a grid it received must establish it first (make_slp)
